@@ -259,6 +259,28 @@ def validator_rules(ck):
             got_ok = False
         ck.ob('C20.validate', f'QcVariableConfig(suspect_min={spec!r})', got_ok == want_ok, key='QcVariableConfig:constructor-validation',
               what=f'QcVariableConfig with suspect_min={spec!r} is {"accepted" if got_ok else "rejected"}')
+    # the validator (writer of configs) and the evaluator (reader) must agree on what a number is: a token the validator accepts as a number
+    # is a limit expression of its own and must evaluate to that number
+    fx = it.module('ioos_qc.config_creator.fx_parser')
+    eval_fx = fx.globals['eval_fx']
+    stats = {k: stat(k) for k in STATS}
+    for tok, value in (('2', 2), ('3.5', Fr(7, 2)), ('-1', -1), ('1e3', 1000), ('1E-2', Fr(1, 100)), ('5.', 5), ('+2', 2), ('.5', Fr(1, 2)), ('1_0', 10), ('inf', None), ('nan', None),
+                       ('0x10', None), ('1,5', None), ('2e', None)):
+        try:
+            it.call(validate, [inst, tok, 'some_test'], {}, None)
+            accepted = True
+        except AbsRaise:
+            accepted = False
+        it.live = X.TRUE
+        try:
+            v = it.call(eval_fx, [tok, stats], {}, None)
+            ev = v.d if isinstance(v, Sc) else (X.num(v) if isinstance(v, (int, Fr)) else v)
+        except AbsRaise as e:
+            ev = f'raises {e.exc.tname}'
+        ck.count(1, distinct=('agree', tok))
+        ok = (not accepted) or (value is not None and ev == X.num(value))
+        ck.ob('C20.validate', f'number token {tok!r}: validator vs eval_fx', ok, key=f'number-token:{tok}:accepted-but-not-evaluated',
+              what=f'the specification {tok!r} is accepted by QcVariableConfig as a number, but eval_fx({tok!r}) gives {ev if isinstance(ev, str) else X.show(ev) if isinstance(ev, tuple) else ev}')
     # every limit expression of every test section is validated, not only the four span keys
     def cfg2(test, key, spec):
         tests = {
@@ -407,11 +429,18 @@ def subset_rules(ck):
     value = lambda la, lo: Fr(1 + LATS.index(la) * 3 + LONS.index(lo))
     orders = [('ascending', LATS, LONS), ('lat descending', LATS[::-1], LONS), ('lon descending', LATS, LONS[::-1]), ('lat unsorted', [30, 10, 40, 20], LONS)]
     boxes = [[105, 15, 120, 30], [100, 10, 120, 40], [110, 20, 110, 20], [101, 11, 119, 39], [100, 30, 110, 40]]
-    for (oname, lats, lons), bbox in itertools.product(orders, boxes):
+    positive = value
+    scenarios = [(o, b, positive, '') for o, b in itertools.product(orders, boxes)]
+    # a quantity that takes both signs (anomalies, velocities, temperatures in deg C): the cells inside the box may sum to zero, or all be zero
+    signed = lambda la, lo: positive(la, lo) - Fr(13, 2)
+    zero_in_box = lambda la, lo: Fr(0) if 15 <= la <= 35 else positive(la, lo)
+    scenarios += [(orders[0], [100, 15, 120, 35], signed, '; values summing to zero inside the box'),
+                  (orders[0], [100, 15, 120, 35], zero_in_box, '; all values inside the box are 0')]
+    for (oname, lats, lons), bbox, value, vname in scenarios:
         ds = GridDS(lats, lons)
         captured = []
 
-        def subset_hook(interp, fv, args, kwargs, node, lats=lats, lons=lons):
+        def subset_hook(interp, fv, args, kwargs, node, lats=lats, lons=lons, value=value):
             names = ['self', 'var', 'time_slice', 'depth', 'lat_mask', 'lon_mask']
             a = dict(zip(names, args))
             a.update(kwargs)
@@ -427,7 +456,7 @@ def subset_rules(ck):
         saved = dict(it.hooks)
         it.hooks['QcConfigCreator.var2dataset'] = lambda interp, fv, args, kwargs, node, ds=ds: ('clim', ds)
         it.hooks['QcConfigCreator.__get_daily_interp_subset'] = subset_hook
-        label = f'create_config(bbox={bbox}) on a constant climatology, coordinates {oname}'
+        label = f'create_config(bbox={bbox}) on a constant climatology, coordinates {oname}{vname}'
         vc = {'variable': 'temp', 'bbox': list(bbox), 'start_time': '2020-01-01', 'end_time': '2020-02-01', 'tests': {
             'gross_range_test': {'suspect_min': 'min', 'suspect_max': 'max', 'fail_min': 'mean', 'fail_max': 'std'}}}
         try:
@@ -447,7 +476,7 @@ def subset_rules(ck):
             got = [to_fr(x) for x in sect['suspect_span'] + sect['fail_span']]
         except (KeyError, TypeError, ValueError) as e:
             got = f'unreadable result ({e})'
-        ck.ob('C20.subset', label, got == want, key=f'create_config:subset:{oname}',
+        ck.ob('C20.subset', label, got == want, key=f'create_config:subset:{oname}{":zero-sum" if vname else ""}',
               what=f'{label}: [min, max, mean, variance] of the selected cells = {show_list(got)}, of the cells inside the box = {show_list(want)} '
                    f'(selected positions {captured[-1:] if captured else "none"})')
     ck.floor('C20.subset', 15)
